@@ -106,6 +106,16 @@ C03renew(post, placement) ==
     (af # NoServer /\ af = b /\ p[3] # p[5] /\ a \in AppNames(post)
        /\ af \in SrvNames(post)) => LifetimeOk(post, a, af)
 
+(* "is not due for reboot before the lease ends": the lease end the scheduler  *)
+(* RECORDS for a new assignment or a renewal lies before the server's reboot   *)
+C03leaseEnd(post, placement) ==
+  \A i \in DOMAIN placement :
+    LET p == placement[i] a == p[1] b == p[2] af == p[4] IN
+    (/\ af # NoServer /\ a \in AppNames(post) /\ af \in SrvNames(post)
+     /\ (af # b \/ p[3] # p[5])
+     /\ post.apps[a].lease > 0 /\ post.apps[a].expiry # NoNum) =>
+       post.apps[a].expiry < post.servers[af].vu
+
 C03ex(placement) == \E i \in DOMAIN placement :
                       placement[i][4] # NoServer /\ placement[i][4] # placement[i][2]
 
